@@ -281,6 +281,18 @@ Theorem C01_ac_votes_quorum :
 Proof. exact ac_accept. Qed.
 Print Assumptions C01_ac_votes_quorum.
 
+(* ---- process history -------------------------------------------------------------------------- *)
+(* In the model verification is a function of (tables, chain, header): whatever cases a process
+   verified before ([pre]) and verifies afterwards ([post]), the verdict on case k is the verdict on
+   k alone.  The implementation is tied to this by the harness: every 9th case and every
+   history-dependent case (same main key, other BLS key at a later look-back height) is verified by
+   the long-lived Server and again by a fresh one; a different verdict is an oracle hit. *)
+Theorem C01_verdict_independent_of_process_history :
+  forall pre k post,
+    nth_error (history_verdicts (pre ++ k :: post)) (length pre) = Some (tcase_verdict k).
+Proof. exact verdict_independent_of_history. Qed.
+Print Assumptions C01_verdict_independent_of_process_history.
+
 (* ---- bridge: real protocol tables -------------------------------------------------------- *)
 (* for every version of every net: BLS on, thresholds positive, and the quorum
    computed by the Go float code equals floor(T*685/1000) resp. floor(T*585/1000) > 0 *)
